@@ -12,8 +12,10 @@ INLINE = 3          # "carrying up to three ready coroutines in a suspend point"
 MAXID = 160
 KINDS = "ved"
 BIND_SIZES = [4, 32, 48, 64, 200]
+GS_MODES = "nnnfbr"    # next() / the future / begin() / a whole range-for pass
 
 EV_RE = re.compile(r"^([af]):([a-z-]+)([+-])(\d+)$")
+CAUGHT_RE = re.compile(r"^(c\d+|m):caught$")
 
 
 def parse_line(line):
@@ -183,7 +185,7 @@ def gen_random(rng, heap_p=0.6, nops=None, small=False):
         elif r < 0.96:
             pool = b.sgens + b.mgens
             if pool:
-                b.lines.append("gs %d %s" % (rng.choice(pool), rng.choice("nnf")))
+                b.lines.append("gs %d %s" % (rng.choice(pool), rng.choice(GS_MODES)))
         else:
             if b.mgens:
                 b.lines.append("gd %d" % rng.choice(b.mgens))
@@ -352,6 +354,8 @@ def gen_merge(rng):
 
 
 def gen_generator(rng):
+    """synchronous generators stepped in every spelling (next(), the future, begin(), a whole range-for pass), from ordinary code
+    and from coroutines, well past their end: a finished generator is stepped, polled and iterated again"""
     b = Builder(rng, rng.choice([0.0, 0.6, 1.0]))
     for _ in range(rng.randint(1, 3)):
         b.new_gen(b.sgens)
@@ -360,7 +364,13 @@ def gen_generator(rng):
     for _ in range(rng.randint(3, 20)):
         r = rng.random()
         if r < 0.6:
-            b.lines.append("gs %d %s" % (rng.choice(b.sgens + b.mgens), rng.choice("nnf")))
+            g = rng.choice(b.sgens + b.mgens)
+            b.lines.append("gs %d %s" % (g, rng.choice(GS_MODES)))
+            if rng.random() < 0.25:
+                # the history after the end: a second pass, begin() on the finished generator, extra polls
+                b.lines.append("gs %d r" % g)
+                for _ in range(rng.randint(1, 4)):
+                    b.lines.append("gs %d %s" % (g, rng.choice("nbrf")))
         elif r < 0.8:
             b.co([rng.choice("gG") + str(rng.choice(b.sgens)) for _ in range(rng.randint(1, 5))])
         elif r < 0.9 and b.mgens:
@@ -511,6 +521,7 @@ class AllocSuite(Suite):
         ops, cats = {}, {}
         acts = {}
         silent = fresh = big = rqcases = 0
+        gs_modes, past_end, caught = {}, 0, 0
         max_n = 0
         for c in cases:
             hdr = c["lines"][0].split()
@@ -521,14 +532,28 @@ class AllocSuite(Suite):
             for l in c["lines"][1:-1]:
                 w = l.split()
                 ops[w[0]] = ops.get(w[0], 0) + 1
+                if w[0] == "gs" and len(w) > 2:
+                    gs_modes[w[2]] = gs_modes.get(w[2], 0) + 1
                 if w[0] == "co" and len(w) > 4 and w[4] != "-":
                     for a in w[4].split(","):
                         acts[a[0]] = acts.get(a[0], 0) + 1
             o = outs.get(str(c["id"]), [])
             any_ev = False
             rq = False
+            finished = set()
+            for op, l in zip(c["lines"][1:], o):
+                w = op.split()
+                if w[0] == "gs" and len(w) > 2:
+                    hd = l.split(" ; ")[0].split()
+                    if w[1] in finished and len(hd) > 1 and hd[1] in ("done", "items=0"):
+                        past_end += 1
+                    if len(hd) > 1 and (hd[1] == "done" or hd[1].startswith("items=")):
+                        finished.add(w[1])
+                elif w[0] in ("gd", "gen"):
+                    finished.discard(w[1])
             for l in o:
                 _, head, toks = parse_line(l)
+                caught += sum(1 for t in toks if CAUGHT_RE.match(t))
                 for h in head:
                     if h.startswith("n=") and h[2:].isdigit():
                         max_n = max(max_n, int(h[2:]))
@@ -543,7 +568,9 @@ class AllocSuite(Suite):
                 rqcases += 1
         return {"ops": ops, "script_actions": acts, "events": cats, "programs_without_any_event": silent,
                 "programs_hitting_the_ready_queue_finding": rqcases, "fresh_thread_programs": fresh,
-                "big_value_type_programs": big, "max_handles_in_one_suspend_point": max_n}
+                "big_value_type_programs": big, "max_handles_in_one_suspend_point": max_n,
+                "generator_steps_by_spelling": gs_modes, "steps_of_an_already_finished_generator": past_end,
+                "exceptions_delivered_to_user_code": caught}
 
     def oracle(self, case, out):
         """C20 evaluated on the implementation's trace: the only allocations are one frame per coroutine / generator created with a
@@ -558,6 +585,10 @@ class AllocSuite(Suite):
             name, head, toks = parse_line(line)
             evs = events(toks)
             allocs = [e for e in evs if e[0] == "a"]
+            # an exception object is the caller's only when the library threw it TO user code, i.e. the very next thing the
+            # trace shows is that user code catching it (`c<j>:caught` / `m:caught`); everything else the library threw and
+            # swallowed on its own (or let escape from an operation that has no error to report)
+            delivered = set(k for k, t in enumerate(toks[:-1]) if t == "a:exception+1" and CAUGHT_RE.match(toks[k + 1]))
             first_c = next((k for k, t in enumerate(toks) if t[0] == "c" and not t.startswith("cb")), len(toks))
             heap_create = w[0] in ("co", "gen") and len(w) > 2 and w[2] == "H" and head and head[0] != "skip"
             frames = [e for e in allocs if e[1] == "frame"]
@@ -586,6 +617,12 @@ class AllocSuite(Suite):
                     else:
                         msgs.append("resolve-suspend-point-growth: resolving a future with more than %d coroutine waiters allocated a handle "
                                     "array of %d cells during `%s`" % (INLINE, n, op))
+                elif cat == "exception":
+                    if e[3] not in delivered:
+                        msgs.append("exception: library code threw an exception that no user code received during `%s` (thrown and "
+                                    "caught inside the library): the exception object is allocated by __cxa_allocate_exception" % op)
+                elif cat == "malloc":
+                    msgs.append("malloc: %d bytes allocated by a direct call of malloc/calloc/realloc during `%s`" % (n, op))
                 elif cat == "frame":
                     if not heap_create:
                         msgs.append("frame: a coroutine frame was allocated by `%s`, which creates no heap-frame coroutine" % op)
@@ -613,29 +650,38 @@ class C20(Spec):
     extract = True
     design_ref = "DESIGN.md §5 C20"
     technique = ("Lean 4 invariant proof over an executable allocation-event model (induction over all programs) + decidable whitelist "
-                 "over the allocation-site table extracted from clang's AST + differential correspondence with the real headers "
-                 "under replaced operator new/delete")
+                 "over the allocation-site table (new / containers / function / shared_ptr, and throw / rethrow_exception / catch) "
+                 "extracted from clang's AST + differential correspondence with the real headers under replaced operator new/delete, "
+                 "interposed __cxa_allocate_exception / __cxa_allocate_dependent_exception and ASan's malloc hook")
     level_text = ("Lean 4 theorems over an executable single-thread model of core programs (future/promise with coroutine, callback and "
                   "blocking-thread awaiters, coroutine mutex, suspend points, synchronous generators, scripted coroutines with heap / "
                   "non-heap frames, the thread's ready queue): every logged allocation is a frame of a heap-frame creation, a handle array "
                   "of a suspend point holding at least inline_count handles, or a block of the thread-local ready queue (the listed "
-                  "finding); none at all without heap frames, beyond-inline suspend points and ready-queue growth. `decide` obligations "
-                  "over the extracted allocation-site table and constants. The model is tied to the headers by running both on generated "
-                  "programs and diffing every line (executed actions and allocation events, counted by replaced operator new/delete and "
-                  "a tagging allocator on the ready queue's deque)")
+                  "finding), or the exception object handed to user code that reads a future without a value (the caller's; the model "
+                  "has no exception thrown and swallowed inside the library, stepping an exhausted generator any number of times in any "
+                  "spelling leaves no trace: c20_exhausted_generator_silent); none at all without heap frames, beyond-inline suspend "
+                  "points, ready-queue growth and such reads. `decide` obligations over the extracted allocation-site table (incl. the "
+                  "exact list of throw / rethrow / catch sites) and constants. The model is tied to the headers by running both on "
+                  "generated programs and diffing every line (executed actions and allocation events, counted by replaced operator "
+                  "new/delete, a tagging allocator on the ready queue's deque, strong definitions of __cxa_allocate_exception / "
+                  "__cxa_allocate_dependent_exception forwarding with dlsym(RTLD_NEXT), and __sanitizer_malloc_hook for direct malloc)")
     level_note = ("trusted: Lean kernel (axioms propext/Classical.choice/Quot.sound at most), the hand-written model, the extractor "
-                  "(clang AST -> allocation-capable constructs), the differential harness (sampling; allocation = operator new/new[] and "
-                  "the deque's allocator; malloc called directly and the C++ runtime's exception allocation are not observed), "
+                  "(clang AST -> allocation-capable constructs), the differential harness (sampling; allocation = operator new/new[], "
+                  "the deque's allocator, the C++ runtime's exception allocation; malloc called directly is observed on the main thread "
+                  "only, releases of exception objects are not observed), "
                   "the C++20 coroutine machinery and libstdc++'s std::deque growth policy as modelled")
     trusted_base = ["hand-written model lean/CoclsModel/Alloc.lean tied to the headers by differential correspondence "
                     "(harness/h_alloc.cpp vs lean/Drivers/C20.lean) on generated core programs",
                     "extract/ (clang-14 AST) reports every allocation-capable construct of the core headers",
-                    "replaced global operator new/delete + tagging allocator observe every dynamic allocation of the library "
-                    "(direct malloc and __cxa_allocate_exception are outside)",
+                    "replaced global operator new/delete + tagging allocator + interposed __cxa_allocate_exception / "
+                    "__cxa_allocate_dependent_exception + ASan's __sanitizer_malloc_hook (main thread) observe every dynamic allocation "
+                    "of the library",
                     "libstdc++ std::deque node/map policy as modelled (Rq in Alloc.lean)"]
     assumptions = ["value types whose construction does not allocate (int, a 64-byte POD)",
                    "one thread at a time runs the program (a fresh thread per program where stated)",
-                   "exceptions used to resolve promises are created by the user outside the measured operations"]
+                   "exceptions used to resolve promises are created by the user outside the measured operations",
+                   "an exception by which the library reports to user code that the future it reads holds no value is the caller's "
+                   "allocation (the trace shows the user code catching it); every other exception object is the library's"]
 
     def suites(self):
         return [AllocSuite()]
@@ -649,7 +695,7 @@ class C20(Spec):
         return []
 
     def table_obligations(self):
-        return ["Cocls.C20.c20_alloc_sites", "Cocls.C20.c20_inline_count"]
+        return ["Cocls.C20.c20_alloc_sites", "Cocls.C20.c20_throw_sites", "Cocls.C20.c20_inline_count"]
 
 
 SPEC = C20()
